@@ -76,7 +76,10 @@ package pdnode_coord
 //@ func IsRaftNodeSynced(nsInfo *cluster.PartitionMetaInfo, nid string) (bool, error)
 //@   trusted asks the data node over HTTP (any answer possible)
 //@ func IsAllISRFullReady(nsInfo *cluster.PartitionMetaInfo) (bool, error)
-//@   trusted asks the data nodes over HTTP (any answer possible)
+//@   trusted asks the data nodes over HTTP (any answer possible); ghost(readyok, nil) counts the (true, nil) answers
+//@   ensures result0 && result1 == nil ==> ghost(readyok, nil) == old(ghost(readyok, nil)) + 1
+//@   ensures !(result0 && result1 == nil) ==> ghost(readyok, nil) == old(ghost(readyok, nil))
+//@   modifies ghost(readyok, nil)
 //@ func (dp *DataPlacement) allocNodeForNamespace(namespaceInfo *cluster.PartitionMetaInfo, currentNodes map[string]cluster.NodeInfo) (*cluster.NodeInfo, *cluster.CoordErr)
 //@   trusted read-only choice of a node
 //@   ensures result1 == nil ==> result0 != nil
@@ -86,13 +89,15 @@ package pdnode_coord
 // UpdateNamespacePartReplicaInfo for every combination of node-liveness / sync-status answers
 //@ func (pdCoord *PDCoordinator) handleNamespaceMigrate(origNSInfo *cluster.PartitionMetaInfo, currentNodes map[string]cluster.NodeInfo, currentNodesEpoch int64) *cluster.CoordErr
 //@   requires pdCoord != nil && pdCoord.dpm != nil && idsOK(origNSInfo) && len(origNSInfo.Removings) <= 1
+//@   ensures result == nil && len(origNSInfo.RaftNodes) > old(len(origNSInfo.RaftNodes)) ==> ghost(readyok, nil) > old(ghost(readyok, nil))
 //@   modifies *
 //@ loop 1
+//@   invariant ghost(readyok, nil) == old(ghost(readyok, nil)) && len(nsInfo.RaftNodes) == old(len(origNSInfo.RaftNodes)) && len(origNSInfo.RaftNodes) == old(len(origNSInfo.RaftNodes))
 //@   invariant nsInfo != nil && fresh(nsInfo) && nsInfo != origNSInfo && 0 <= aliveReplicas && aliveReplicas <= iter
 //@   invariant nsInfo.Removings != nil ==> fresh(nsInfo.Removings)
 //@   invariant len(nsInfo.Removings) <= 1 && (isrChanged || len(nsInfo.Removings) == 0)
 //@   invariant nsInfo.RaftIDs != nil && fresh(nsInfo.RaftIDs) && 0 <= nsInfo.MaxRaftID && nsInfo.MaxRaftID < 4611686018427387904 && (forall n string :: in(n, nsInfo.RaftIDs) ==> nsInfo.RaftIDs[n] <= nsInfo.MaxRaftID)
 //@   invariant pdCoord.dpm != nil
 //@ loop 2
-//@   invariant nsInfo != nil && pdCoord.dpm != nil && len(nsInfo.Removings) == 0
+//@   invariant nsInfo != nil && nsInfo != origNSInfo && fresh(nsInfo) && pdCoord.dpm != nil && len(nsInfo.Removings) == 0 && ghost(readyok, nil) > old(ghost(readyok, nil)) && len(origNSInfo.RaftNodes) == old(len(origNSInfo.RaftNodes))
 //@   invariant nsInfo.RaftIDs != nil && 0 <= nsInfo.MaxRaftID && nsInfo.MaxRaftID < 4611686018427387904 && (forall n string :: in(n, nsInfo.RaftIDs) ==> nsInfo.RaftIDs[n] <= nsInfo.MaxRaftID)
